@@ -18,7 +18,7 @@ Theorem C07_generated_shapes :
   boolop_eager_bool_fold = true /\ boolop_swallows_nonetype_typeerror = true /\ binop_sentinel_guard = true /\
   call_allowed_by_identity = true /\ final_raise_typeerror = true /\ typematcher_shapes_ok = true /\
   forallb (fun root => in_list root compiled_extra_names) whitelist_roots = true /\
-  compiled_roots_dynamic = true /\
+  compiled_roots_dynamic = true /\ fieldtype_roots_resolve = true /\
   dispatch_order = ["Constant"; "List"; "Tuple"; "Name"; "Attribute"; "BoolOp"; "BinOp"; "UnaryOp"; "Compare"; "Call";
                     "comprehension"; "GeneratorExp"] /\
   map fst data_names = ["None"; "True"; "False"; "str"; "repr"; "fields"; "any"; "all"; "lower"; "upper"; "name"; "names";
